@@ -68,7 +68,7 @@ func (l *vLogger) Parse(handler func(name, renamed, hash string, size int64, t t
 			t = l.v.Now().Add(-10 * 24 * time.Hour)
 		}
 		if t.IsZero() {
-			t = l.v.Now()
+			t = l.v.Now().Add(-time.Minute) // records given by the harness: logged a moment ago
 		}
 		if handler(r.name, r.renamed, r.hash, r.size, t) {
 			return true
